@@ -5,15 +5,16 @@ import glob, json, os, re, shutil, subprocess, sys, tempfile
 from concurrent.futures import ThreadPoolExecutor
 
 only = sys.argv[sys.argv.index("--only") + 1] if "--only" in sys.argv else ""
+only_re = re.compile(sys.argv[sys.argv.index("--match") + 1]) if "--match" in sys.argv else None
 items = []
 for p in sorted(glob.glob("/verif/mutants/*.diff")):
     name = os.path.basename(p)[:-5]
-    if name.startswith(only):
+    if name.startswith(only) and (only_re is None or only_re.search(name)):
         items.append((name, p, ["C" + name[1:3]], "own"))
 for d in sorted(glob.glob("/verif/seeded/*/")):
     meta = json.load(open(d + "meta.json"))
     name = os.path.basename(d.rstrip("/"))
-    if name.startswith(only):
+    if name.startswith(only) and (only_re is None or only_re.search(name)):
         items.append((name, d + "patch.diff", meta.get("checks") or [meta["property"]], "seeded"))
 
 
@@ -54,6 +55,12 @@ for name, kind, tests, res in results:
         lines.append(f"| {name} | {kind} | {tests} | - | - | - |")
     for c, rc, kinds in res:
         lines.append(f"| {name} | {kind} | {tests} | {c} | {rc} | {', '.join(kinds)[:160]} |")
+if "--append" in sys.argv and os.path.exists("/verif/DETECTION.md"):
+    # keep the existing record, replace / add the rows of the changes that were just run
+    names = {name for name, *_ in results}
+    old = [l for l in open("/verif/DETECTION.md").read().splitlines() if not (l.startswith("| ") and l.split("|")[1].strip() in names)]
+    new_rows = [l for l in lines if l.startswith("| ") and l.split("|")[1].strip() in names]
+    lines = old + new_rows
 open("/verif/DETECTION.md", "w").write("\n".join(lines) + "\n")
 missed = [(n, c) for n, k, t, res in results for c, rc, kinds in res if rc != 1]
 print(f"{len(results)} changes; not detected: {missed}")
